@@ -633,6 +633,11 @@ htp_status_t htp_tx_req_process_body_data_ex(htp_tx_t *tx, const void *data, siz
             if (tx->connp->req_decompressor == NULL)
                 return d.is_last ? HTP_OK : HTP_ERROR;
 
+            // The time accounting in the decompressor callback measures from here
+            // (as on the response side); without a starting point it took the
+            // absolute time of day for time spent decompressing.
+            gettimeofday(&tx->connp->req_decompressor->time_before, NULL);
+            tx->connp->req_decompressor->nb_callbacks = 0;
             // Send data buffer to the decompressor.
             htp_gzip_decompressor_decompress(tx->connp->req_decompressor, &d);
 
